@@ -38,6 +38,13 @@ def main():
         print('INCONCLUSIVE property=%s build failed: %s' % (prop, e))
         return 2
     plans = props.plan(prop, tier)
+    try:
+        # parse the MIR once here (cached for the workers): a dump the parser cannot read is inconclusive, at once
+        import engine
+        engine.load_program(build['mir'], build['src'], cache_dir=build['dir'])
+    except Exception as e:
+        print('INCONCLUSIVE property=%s the MIR of the current tree could not be loaded: %r' % (prop, e))
+        return 2
     ex = runner.Explorer(build, 'props', a.procs)
     known = runner.load_known()
     runs = []
@@ -181,4 +188,13 @@ def main():
 
 
 if __name__ == '__main__':
-    sys.exit(main())
+    try:
+        rc = main()
+    except SystemExit:
+        raise
+    except BaseException as e:       # an internal failure of the machinery is never a verdict
+        import traceback
+        traceback.print_exc()
+        print('INCONCLUSIVE internal error: %r' % (e,))
+        rc = 2
+    sys.exit(rc)
